@@ -996,11 +996,21 @@ def _compute_factorize(m):
 def f_compute(gen, report, sort_post):
     hdr, cls = (GB, "GenEigsBase") if gen else (HB, "HermEigsBase")
     spec = compute_spec(gen, sort_post)
+    # loop locals are identified by their ROLE in the code (loop counter, result of num_converged, result of nev_adjusted),
+    # not by name: a renamed local keeps the sidecar loop contract applicable
+    body0 = X.locate(hdr, "compute", cls=cls).body
+    m_i = re.search(r"for \((\w+) = 0; \1 < maxit; (?:\1\+\+|\+\+\1)\)", body0)
+    m_c = re.search(r"(\w+) = num_converged\(tol\);", body0)
+    m_a = re.search(r"(\w+) = nev_adjusted\((\w+)\);", body0)
+    if not (m_i and m_c and m_a) or m_a.group(2) != m_c.group(1):
+        raise X.ExtractionBreak("compute(): restart loop roles (counter / nconv / adjusted nev) not recognised in %s" % hdr)
+    L_I, L_C, L_A = m_i.group(1), m_c.group(1), m_a.group(1)
+    ren = lambda t: re.sub(r"\bnev_adj\b", L_A, re.sub(r"\bnconv\b", L_C, re.sub(r"(?<![\w.>])i\b(?!\s*\()", L_I, t)))
     extra = accessor_rules(report) + [
         ("factorize", r"S->m_fac\.factorize_from\((.*?), S->m_nmatop\);", _compute_factorize, {"max": 1}),
         ("retrieve", r"(?<![\w>])retrieve_ritzpair\(selection\);", "retrieve_ritzpair(S, selection);", {"max": 1}),
         ("num_converged", r"(?<![\w>])num_converged\(tol\)", "num_converged(S, tol)", {"min": 1, "max": 2}),
-        ("nev_adjusted", r"(?<![\w>])nev_adjusted\(nconv\)", "nev_adjusted(S, nconv)", {"max": 1}),
+        ("nev_adjusted", r"(?<![\w>])nev_adjusted\((\w+)\)", r"nev_adjusted(S, \1)", {"max": 1}),
         ("restart", r"(?<![\w>])restart\((\w+), selection\);", r"g_budget += 2 * (S->m_ncv - (\1)); g_calls++; restart(S, \1, selection); g_restarts++;", {"max": 1}),
         ("sort", r"(?<![\w>])sort_ritzpair\(sorting\);", "sort_ritzpair(S, sorting);", {"max": 1}),
     ]
@@ -1016,6 +1026,7 @@ def f_compute(gen, report, sort_post):
            "__CPROVER_loop_invariant(S->m_fac.m_k == S->m_ncv && S->m_fac.g_valid_k == S->m_ncv && S->m_fac.m_beta >= (Scalar)0 && %s) "
            "__CPROVER_loop_invariant(0 <= nconv && nconv <= S->m_nev && 0 <= S->cnt_conv && S->cnt_conv <= S->m_nev && (i == 0 || nconv == S->cnt_conv)) "
            "__CPROVER_decreases(maxit - i)") % ((", __CPROVER_object_whole(S->m_fac.m_fac_H.colbuf)" if gen else ""), SHAPES)
+    inv = ren(inv)
     t = emit_solver_fn(hdr, cls, "compute", "compute", report, ret_c="Index", extra=extra, loops={0: inv},
                        contract=spec.frame_contract(), params={"tol": "Scalar"},
                        maythrow=["factorize_from", "retrieve_ritzpair", "restart", "sort_ritzpair"],
